@@ -37,7 +37,7 @@ def oracle(run, sec, case):
     items = list(list.__iter__(sec))
     reserved = set(dir(sec))      # class attributes and plain instance attributes shadow item lookup (Python semantics)
     before = snap(sec)
-    for k in secops.KEYS + ["Q", "unknown"]:
+    for k in secops.KEYS + ["Q", "unknown", "", " "]:
         if isinstance(k, str):
             try:
                 c = k in sec
@@ -230,6 +230,8 @@ def one(run, seq, tr, kind, with_oracle=True):
             present = op[0] == "setattr" and (op[1] in sec)
             before = snap(sec)
             secops.apply_real(sec, op)
+            for k_ in secops.KEYS:        # look-ups between the operations (what a caller does; they must not matter later)
+                secops.probe(sec, k_)
             if op[0] == "setattr":
                 # `section.<key> = value` must behave like `section[key] = value` when the key is present, else leave the items alone
                 c2 = {"tr": tr, "ops": seq[:n + 1]}
